@@ -18,6 +18,7 @@ EXTENDS Naturals, FiniteSets, TLC
 
 CONSTANTS Spawners, MaxAtt, Lookers, MaxLook, Proxies,
           PidFaults,      \* BOOLEAN: register_pid may fail (exercises the rollback)
+          ProxyUnregisters, \* TRUE: the code before the C10 repair (a proxy's exit unregisters by name)
           Mutant          \* "none" | "toctou" (check-then-insert) | "everycall" (cleanup on every call >= Stopping)
 
 Unborn == 0  Running == 2  Stopping == 5  Stopped == 6
@@ -129,7 +130,10 @@ XFetch(p, v) ==
   /\ UNCHANGED <<name, pids, att, sres, waited, lpc, lgot, nlook, seen, stale, dev>>
 \* pid_registry::unregister_pid (a no-op for a remote id); label cleanup.pid
 XPid(p) ==
-  /\ spc[p] = "xpid" /\ pids' = pids \ {Cur(p)} /\ spc' = [spc EXCEPT ![p] = "xname"]
+  /\ spc[p] = "xpid" /\ pids' = pids \ {Cur(p)}
+  \* a remote proxy is not enrolled under its name and (after the repair) skips the name removal
+  /\ spc' = [spc EXCEPT ![p] = IF p \in Proxies /\ ~ProxyUnregisters
+                                 THEN (IF st[Cur(p)] = Stopped THEN "stopped" ELSE "called") ELSE "xname"]
   /\ UNCHANGED <<name, st, att, sres, xn, xelect, waited, lpc, lgot, nlook, seen, stale, dev>>
 \* registry::unregister(name): removal by name; label cleanup.name
 XName(p) ==
